@@ -8,6 +8,40 @@ import sys
 ROOT = os.path.dirname(os.path.dirname(os.path.abspath(__file__)))
 
 CLAIMED = {
+    "C14": dict(
+        category="model_checking",
+        text="TLC evaluates a transcription, over a 20-class character alphabet, of the N-Quads / N-Triples exporters (term-kind guess, "
+             "escaping) and importers (line splitting, the parse_ntriples_parts tokenizer automaton, clean_ntriples_term, "
+             "decode_ntriples_literal, encode_term_star, split_quoted_triple_content) on every literal of Sigma^(<=3) (thorough: <=4) that "
+             "cannot be mistaken for an IRI, blank node or quoted triple, alone (default graph / named graph) and inside a quoted triple, and "
+             "checks Import(Export(D)) = Restrict(D) (negative controls: historic exporter without escaping, historic double interpretation of "
+             "cleaned terms); every enumerated case is concretised with rotating class representatives (multi-byte, Unicode white space) and "
+             "run through the real generate_* -> parse_* for N-Quads, N-Triples and Turtle; seeded random multi-quad datasets with long "
+             "literals, named graphs, blank nodes and quoted triples; a TLA+ trace specification judges every round trip against the requirement "
+             "and compares exported text and re-imported quads with the model's prediction.",
+        design_ref="DESIGN.md section 5 (C14)",
+        note="Trusted: TLC, the Json module, the recording harness (harness/src/c14.rs). Unicode by class representatives only; the letters "
+             "b f u U, + - ' and \\u escapes are outside the alphabet; Turtle has no code-shaped model (requirement only). Known findings: "
+             "literals with delimiter characters inside quoted triples (all three formats); Turtle export of a subject with several predicates.",
+        technique="TLA+ model checking of a transcribed tokenizer/escaper (TLC) + exhaustive spec-to-impl replay + trace validation against the TLA+ requirement",
+    ),
+    "C13": dict(
+        category="model_checking",
+        text="TLC checks a code-shaped model of the loaders (1000-line chunks modelled with ChunkSize 2: parallel parse + sequential encode "
+             "for N-Triples; per-chunk private dictionary / prefix map and their merge for N3; sequential Turtle) against the requirement "
+             "'store after = store before + exactly the document's triples', exhaustively for small documents, three prior databases and all "
+             "chunk completion orders, with the two historic N3 designs as negative controls; every behaviour of a smaller instance is replayed "
+             "on the real loaders with each model chunk laid out on a real 1000-line chunk; documents of 1/999/1000/1001/2500 (thorough: up to "
+             "20000) lines x prior database empty/small/large-dictionary/loaded-from-another-format x 1/2/16 rayon threads x five formats, and one "
+             "document per (format, term shape) for the cross-format clause, are loaded by the real parse_* functions; a TLA+ trace "
+             "specification computes what must be stored and judges every load.",
+        design_ref="DESIGN.md section 5 (C13)",
+        note="Trusted: TLC, the Json module, the document renderer and recording harness (harness/src/c13.rs). Line-oriented subset only (one "
+             "statement per physical line); literal normalisation is not modelled in L1 but decided on the real loaders per term shape; "
+             "interleavings inside rayon are not controlled (pool size is an axis). Known findings: N3 literals containing free-standing "
+             "';' ',' '.' or runs of spaces; RDF/XML entity references, empty text, xml:lang.",
+        technique="TLA+ model checking (TLC) + spec-to-impl replay with chunk inflation + trace validation against the TLA+ requirement",
+    ),
     "C15": dict(
         category="model_checking",
         text="TLC checks the requirement module Dict.tla (identifier maps as relations, ghost of every pair ever handed out; "
